@@ -38,6 +38,16 @@ theorem decrypt_structure_is_sound :
     Facts.C07.decryptChecksReject = true ∧ Facts.C07.rejectedReturnsBeforeHandle = true ∧
     Facts.C07.otherErrorsAreFatal = true := by decide
 
+/-- **No handled message can weaken the acceptance state.**  The replay buffer has exactly one
+writer — `MessageIDBuf.Consume` — the connection sees it through an interface with that one
+method, the only use of `c.messageIDBuf` in package mtproto is the `Consume` call in
+`decryptMessage` (no reset, no type assertion to a wider interface), and no `handle*` function
+mentions the session id, the keys or the buffer.  So in the model handling a message changes
+nothing but what `consume` changed (`rejected_reaches_no_handler`, `consume_state`). -/
+theorem acceptance_state_has_one_writer :
+    Facts.C07.bufWriters = ["Consume"] ∧ Facts.C07.messageBufMethods = ["Consume"] ∧
+    Facts.C07.bufUses = ["decryptMessage:Consume"] ∧ Facts.C07.handlersTouchingAcceptanceState = [] := by decide
+
 /-- For both sound orders the interpreted `decryptMessage` is the canonical one the theorems
 below are about (the session and id checks are pure, so they commute). -/
 theorem decrypt_order_irrelevant (o : List Nat) (ho : o = [0, 1, 2, 3] ∨ o = [0, 2, 1, 3])
